@@ -98,7 +98,41 @@ pub fn dump(store: &GraphStore) -> String {
         })
         .collect();
     nodes.sort();
-    let mut rels: Vec<(u64, String)> = store
+    let edge_text = |e: &samyama::graph::Edge| {
+        let props: HashMap<String, PropertyValue> = e.properties.iter().map(|(k, v)| (k.clone(), v.clone())).collect();
+        (e.id.as_u64(), format!("{}:{}:{}:{}:{}", e.id.as_u64(), e.source.as_u64(), e.target.as_u64(), num_suffix(e.edge_type.as_str(), 'T'), props_text(&props)))
+    };
+    // Relationships are listed through the ADJACENCY API of every node (outgoing lists); the incoming lists and
+    // the edge table must tell the same story.  A relationship missing from one of the views, or a phantom one,
+    // is listed with a marker type (9001 edge table only / not in outgoing adjacency, 9002 differs in the
+    // incoming adjacency) so that it never compares equal to the reference.
+    let mut out_view: Vec<(u64, String)> = vec![];
+    let mut in_view: Vec<(u64, String)> = vec![];
+    for n in store.all_nodes() {
+        out_view.extend(store.get_outgoing_edges(n.id).iter().map(|e| edge_text(e)));
+        in_view.extend(store.get_incoming_edges(n.id).iter().map(|e| edge_text(e)));
+    }
+    let mut tab_view: Vec<(u64, String)> = store.all_edges().iter().map(|e| edge_text(e)).collect();
+    out_view.sort();
+    in_view.sort();
+    tab_view.sort();
+    let mut marked: Vec<(u64, String)> = vec![];
+    if out_view != tab_view {
+        for x in tab_view.iter().filter(|x| !out_view.contains(x)) {
+            marked.push((x.0, format!("{}:0:0:9001:-", x.0)));
+        }
+        for x in out_view.iter().filter(|x| !tab_view.contains(x)) {
+            marked.push((x.0, format!("{}:0:0:9001:-", x.0)));
+        }
+    }
+    if in_view != out_view {
+        for x in in_view.iter().filter(|x| !out_view.contains(x)).chain(out_view.iter().filter(|x| !in_view.contains(x))) {
+            marked.push((x.0, format!("{}:0:0:9002:-", x.0)));
+        }
+    }
+    let mut rels: Vec<(u64, String)> = out_view.clone();
+    rels.extend(marked);
+    let _unused: Vec<(u64, String)> = store
         .all_edges()
         .iter()
         .map(|e| {
@@ -518,6 +552,8 @@ pub enum Cl {
     Unwind(Ex, u32),
     MatchN(u32, Vec<u32>, Vec<(u32, Ex)>),
     MatchR(u32, Vec<u32>, u32, u32, u32, Vec<u32>),
+    /// the same pattern written from the other end: MATCH (b)<-[r:T]-(a)
+    MatchRRev(u32, Vec<u32>, u32, u32, u32, Vec<u32>),
     Filter(Ex),
     With(Vec<u32>, Vec<(u32, Ex)>),
     Create(Vec<CPath>),
@@ -589,6 +625,7 @@ impl Cl {
             Cl::Unwind(..) => "unwind",
             Cl::MatchN(..) => "match",
             Cl::MatchR(..) => "matchrel",
+            Cl::MatchRRev(..) => "matchrelrev",
             Cl::Filter(_) => "where",
             Cl::With(..) => "with",
             Cl::Create(_) => "create",
@@ -604,7 +641,8 @@ impl Cl {
         match self {
             Cl::Unwind(e, x) => format!("UNWIND {} AS v{}", e.cypher(), x),
             Cl::MatchN(x, ls, ps) => format!("MATCH (v{}{}{})", x, labels_cy(ls), props_cy(ps)),
-            Cl::MatchR(a, la, r, ty, b, lb) => format!("MATCH (v{}{})-[v{}:T{}]->(v{}{})", a, labels_cy(la), r, ty, b, labels_cy(lb)),
+            Cl::MatchR(a, la, r, ty, b, lb) => format!("MATCH (v{}{})-[v{}{}]->(v{}{})", a, labels_cy(la), r, if *ty == 999 { String::new() } else { format!(":T{}", ty) }, b, labels_cy(lb)),
+            Cl::MatchRRev(a, la, r, ty, b, lb) => format!("MATCH (v{}{})<-[v{}{}]-(v{}{})", b, labels_cy(lb), r, if *ty == 999 { String::new() } else { format!(":T{}", ty) }, a, labels_cy(la)),
             Cl::Filter(e) => format!("WHERE {}", e.cypher()),
             Cl::With(keep, items) => {
                 let mut parts: Vec<String> = keep.iter().map(|v| format!("v{}", v)).collect();
@@ -653,7 +691,7 @@ impl Cl {
         match self {
             Cl::Unwind(e, x) => format!("U({},v{})", e.model(), x),
             Cl::MatchN(x, ls, ps) => format!("MN(v{},{},{})", x, labels_m(ls), props_m(ps)),
-            Cl::MatchR(a, la, r, ty, b, lb) => format!("MR(v{},{},v{},{},v{},{})", a, labels_m(la), r, ty, b, labels_m(lb)),
+            Cl::MatchR(a, la, r, ty, b, lb) | Cl::MatchRRev(a, la, r, ty, b, lb) => format!("MR(v{},{},v{},{},v{},{})", a, labels_m(la), r, ty, b, labels_m(lb)),
             Cl::Filter(e) => format!("W({})", e.model()),
             Cl::With(keep, items) => format!(
                 "WI([{}],{{{}}})",
